@@ -1229,6 +1229,18 @@ def search_rdkit(ck):
             tests.append((f'[{e};D2,D3;h1]', lambda t, el=el: el(t) and neutral(t) and t['nb'] in (2, 3) and t['h'] == 1, ('nb', 'h')))
             tests.append((f'[{e};z2;x1,x2]', lambda t, el=el: el(t) and neutral(t) and t['hyb'] == 2 and t['het'] in (1, 2), ('hyb', 'het')))
             tests.append((f'[{e};D3;r6]', lambda t, el=el: el(t) and neutral(t) and t['nb'] == 3 and 6 in t['rings'], ('nb', 'rings')))
+        # the same primitives built through the query API with bare ints (0 included), lists and tuples
+        for e in elements:
+            z = next(a.atomic_number for _, a in m.atoms() if a.atomic_symbol == e)
+            for k in (0, 1, 2):
+                tests.append((('api', e, 'neighbors', k), lambda t, k=k, z=z: t['num'] == z and t['chg'] == 0 and t['nb'] == k, ('nb',)))
+                tests.append((('api', e, 'implicit_hydrogens', k), lambda t, k=k, z=z: t['num'] == z and t['chg'] == 0 and t['h'] == k, ('h',)))
+                tests.append((('api', e, 'heteroatoms', k), lambda t, k=k, z=z: t['num'] == z and t['chg'] == 0 and t['het'] == k, ('het',)))
+            tests.append((('api', e, 'neighbors', (0, 1)), lambda t, z=z: t['num'] == z and t['chg'] == 0 and t['nb'] in (0, 1), ('nb',)))
+            tests.append((('api', e, 'hybridization', 1), lambda t, z=z: t['num'] == z and t['chg'] == 0 and t['hyb'] == 1, ('hyb',)))
+            tests.append((('api', e, 'ring_sizes', 0), lambda t, z=z: t['num'] == z and t['chg'] == 0 and not t['in_ring'], ('in_ring',)))
+        tests.append((('api', 'A', 'neighbors', 0), lambda t: t['chg'] == 0 and t['nb'] == 0, ('nb',)))
+        tests.append((('api', 'A', 'heteroatoms', 0), lambda t: t['chg'] == 0 and t['het'] == 0, ('het',)))
         tests.append(('[C,N]', lambda t: t['num'] in (6, 7) and t['chg'] == 0, ()))
         tests.append(('[#8,#16;D1]', lambda t: t['num'] in (8, 16) and t['chg'] == 0 and t['nb'] == 1, ('nb',)))
         tests.append(('[13C]', lambda t: t['num'] == 6 and t['chg'] == 0 and t['iso'] == 13, ()))
@@ -1237,9 +1249,14 @@ def search_rdkit(ck):
         for text, pred, reads in tests:
             if text == '[M]' and has_metal:
                 continue
-            if query(text) is None:
-                continue
-            qa = query(text).atom(1)
+            if isinstance(text, tuple):
+                from chython.periodictable import QueryElement, AnyElement
+                qa = (AnyElement if text[1] == 'A' else QueryElement.from_symbol(text[1]))(**{text[2]: text[3]})
+                text = f'{text[1]}({text[2]}={text[3]!r})'
+            else:
+                if query(text) is None:
+                    continue
+                qa = query(text).atom(1)
             for n, a in m.atoms():
                 t = attrs[n - 1]
                 # the two independent determinations (RDKit, recount from the raw graph) must agree with each other, otherwise
@@ -1253,13 +1270,13 @@ def search_rdkit(ck):
                 got = bool(qa == a)
                 ck.case(('rdkit', smi, n, text), nontrivial=want)
                 if got != want:
-                    ck.counterexample(f'primitive:{re.sub("[0-9]+", "", text.split(";", 1)[-1].strip("[]"))}', 'a SMARTS primitive matches / does not match an atom against the independently determined attribute',
+                    ck.counterexample(f'api-setter:{text.split("(")[1].split("=")[0]}' if '(' in text else f'primitive:{re.sub("[0-9]+", "", text.split(";", 1)[-1].strip("[]"))}', 'a SMARTS primitive matches / does not match an atom against the independently determined attribute',
                                       {'smiles': smi, 'atom': n, 'smarts': text}, got, want, 'RDKit attributes of the molecule as written + recount from the raw graph',
                                       replay_py=f"from chython import smiles, smarts\nm=smiles({smi!r}); q=smarts({text!r}); print(q.atom(1) == m.atom({n}), [x[1] for x in q.get_mapping(m, _cython=False, automorphism_filter=False)])")
             ck.count('rdkit:atom-queries')
         # the full matcher on a few of them (pure-Python path): the set of matched atoms is the set satisfying the predicate
         rng = random.Random(f'{ck.seed}:{smi}')
-        for text, pred, reads in rng.sample(tests, 12):
+        for text, pred, reads in rng.sample([t for t in tests if isinstance(t[0], str)], 12):
             if reads and any(not attrs[n - 1]['unique_rings'] or raw[n][:3] != (attrs[n - 1]['nb'], attrs[n - 1]['het'], attrs[n - 1]['hyb'])
                              or a.implicit_hydrogens != attrs[n - 1]['h'] or a.is_radical for n, a in m.atoms()):
                 continue
@@ -1310,18 +1327,221 @@ def run(ck):
                         '_tokenize; every bond text of length <= 4 over 9 characters. search: generated SMARTS and one-character mutations (exception class, '
                         'denotation of linear patterns), canonical bracket bodies read by an independent regular expression, every primitive on corpus atoms '
                         'against RDKit attributes. non-trivial = a match / an accepted input')
-    proved = common.standard_proof_steps(ck, translators=['smarts', 'tokens', 'elements'])
+    proved = common.standard_proof_steps(ck, translators=['smarts', 'tokens', 'elements'], extra_targets=['model/SmartsFull.vo'])
     tied = True
     import time
     timing = {}
-    for fn in (corr_match, corr_from_atom, corr_bonds, corr_labels, corr_parse, corr_tokens, corr_bond_spellings):
+    for fn in (corr_match, corr_from_atom, corr_api, corr_bonds, corr_full, corr_labels, corr_parse, corr_tokens, corr_bond_spellings):
         t0 = time.time()
         tied = fn(ck) and tied
         timing[fn.__name__] = round(time.time() - t0, 1)
-    for fn in (search_stream, check_bond_contexts, search_rdkit):
+    for fn in (search_stream, check_bond_contexts, search_stereo, search_rdkit):
         t0 = time.time()
         fn(ck)
         timing[fn.__name__] = round(time.time() - t0, 1)
     ck.extra['timing_s'] = timing
     ck.extra['proved'] = proved
     ck.extra['tied'] = tied
+
+
+# ----------------------------------------------------------------------------------------------------------------
+# the query API: constructor and setters with None / bare ints (0 included) / lists / tuples, for every query class
+
+API_VALUES = [None, -1, 0, 1, 2, 3, 4, 5, 14, 15, [], [0], (0,), [1, 2], (2, 1), [0, 0], [15], [3, 3], [3, 4], [2], [-1], [0, 14],
+              [1, 2, 3, 4], [5], (2, 8), [4, 1], [65, 3]]
+API_FIELD = {'neighbors': ('nb', 0), 'heteroatoms': ('het', 0), 'implicit_hydrogens': ('h', 0), 'hybridization': ('hyb', 1), 'ring_sizes': ('rings', 2)}
+
+
+def api_classes():
+    from chython.periodictable import QueryElement, AnyElement, AnyMetal, ListElement
+    from functools import partial
+    return [('E', QueryElement.from_atomic_number(8), dict(num=8)), ('A', AnyElement, {}),
+            ('L', partial(ListElement, ['C', 'O']), dict(nums=(6, 8))), ('M', AnyMetal, {})]
+
+
+def ival_term(v):
+    if v is None:
+        return 'None'
+    if isinstance(v, int):
+        return f'(Some (IInt {zraw(v)}))'
+    return f'(Some (IList {lst(list(v), zraw)}))'
+
+
+def intended(attr, v):
+    """what the documentation says the value means: None = unconstrained, an int = that one value, a list = its values"""
+    if v is None:
+        return ()
+    if isinstance(v, int):
+        return (v,)
+    return tuple(sorted(v))
+
+
+def corr_api(ck):
+    rng = random.Random(f'{ck.seed}:c08-api')
+    axes = dict(num=[8, 6, 26, 29], chg=[0], nb=[0, 1, 2, 3, 4, 5, 14], hyb=[1, 2, 3, 4], h=[None, 0, 1, 2, 3], het=[0, 1, 2, 3, 14],
+                rings=[(), (3,), (4,), (5,), (3, 4), (65,)])
+    atoms = [A(**{k: rng.choice(v) for k, v in axes.items()}) for _ in range(120)] + \
+        [A(num=8, nb=k, h=k2, het=k3) for k in range(0, 4) for k2 in (0, 1) for k3 in (0, 1)]
+    real_atoms = [a.real() for a in atoms]
+    bt = Batches('c08_api', extra='Import ListNotations. Open Scope Z_scope.')
+    for kind, cls, kw in api_classes():
+        for attr, (field, code) in API_FIELD.items():
+            if kind == 'M' and attr not in ('neighbors', 'hybridization'):
+                continue
+            for path in ('constructor', 'setter'):
+                rows = []
+                for v in API_VALUES:
+                    try:
+                        if path == 'constructor':
+                            q = cls(**{attr: v})
+                        else:
+                            q = cls()
+                            setattr(q, attr, v)
+                        got = tuple(getattr(q, attr))
+                        rows.append(zs(got))
+                    except Exception as e:
+                        rows.append(sexn(e))
+                        ck.case(('api', kind, attr, path, repr(v)), nontrivial=False)
+                        continue
+                    ck.case(('api', kind, attr, path, repr(v)))
+                    ck.count(f'api:{attr}:accepted')
+                    # the accepted value must constrain exactly as documented
+                    qd = Q(kind, **dict(kw, **{field: intended(attr, v)})) if kind != 'M' else Q('M', **{field: intended(attr, v)})
+                    for a, ra in zip(atoms, real_atoms):
+                        g, w = real_match(q, ra), ref_match(qd, a)
+                        if g != w:
+                            ck.counterexample(f'api-setter:{attr}', f'a query atom built through the query API ({path}, {attr}={v!r}) does not constrain as documented',
+                                              {'class': type(q).__name__, 'path': path, 'attribute': attr, 'value': v, 'stored': got, 'atom': a.key()}, g, w,
+                                              'Python reference of the documented conjunction',
+                                              replay_py=f"import checks.C08 as c\nk, cls, kw = [x for x in c.api_classes() if x[0] == {kind!r}][0]\nq = cls(**{{{attr!r}: {v!r}}})\nprint(getattr(q, {attr!r}), q == c.A(*{a.key()!r}).real())")
+                            break
+                bt.add(f'b_api {code} {lst(API_VALUES, ival_term)} {cstr(chr(10).join(rows))}', (kind, attr, path, rows))
+    ok, bad, log = bt.run()
+    return conclude(ck, 'query API: neighbors / heteroatoms / implicit_hydrogens / hybridization / ring_sizes through constructor and setter of every class '
+                        '== validate_api / validate_hyb / validate_rings (None, bare ints incl. 0, lists, tuples)', bt, ok, bad, log)
+
+
+# ----------------------------------------------------------------------------------------------------------------
+# the whole of smarts(): atoms with stereo marks, bonds with order, ring mark and cis/trans flag
+
+def show_full(q):
+    order = {n: i for i, n in enumerate(q._atoms)}
+    atoms = ' '.join(show_qatom(a) + '/' + sopt(sbool, getattr(a, 'stereo', None)) for _, a in q.atoms())
+    bonds = sorted((min(order[n], order[m]), max(order[n], order[m]), bd) for n, m, bd in q.bonds())
+    return atoms + ' ; ' + ' '.join(f'{i}-{j}:{zs(bd.order)}{sopt(sbool, bd.in_ring)}/{sopt(sbool, bd.stereo)}' for i, j, bd in bonds)
+
+
+def real_full(text):
+    from chython import smarts
+    try:
+        return show_full(smarts(text))
+    except Exception as e:
+        return sexn(e)
+
+
+def stereo_smarts(rng, n):
+    """SMARTS with direction marks on both sides of double bonds, of order lists, of negated and ring-marked bonds"""
+    ends = ['F', 'Cl', 'C', 'N', '[C;D1]', '[#8]', '[A]', 'O']
+    mids = ['=', '=', '=', '=,#', '=,:', '!-', '!:', '=;@', '=;!@', '=,#;!@', '-', '#', '', '~']
+    marks = ['/', '\\', '']
+    out = []
+    for _ in range(n):
+        k = rng.choice([1, 1, 1, 2, 3])
+        s = rng.choice(ends) + rng.choice(marks)
+        for i in range(k):
+            c1, c2 = rng.choice(['C', 'C', '[C;D3]', 'N', 'C(F)']), rng.choice(['C', 'C', 'N', '[C;h1]', 'C(C)'])
+            s += c1 + rng.choice(mids) + c2 + rng.choice(marks)
+            if i + 1 < k:
+                s += rng.choice(['C', '', 'C', 'N']) + rng.choice(marks)
+        s += rng.choice(ends)
+        out.append(s)
+        if rng.random() < .25:      # ring closures carrying marks, branches
+            out.append(rng.choice(['F/C=C/1.F1', 'C1/C=C\\CCCCC1', 'C/1=C/CCCCCC1', 'F/C=C(/F)Cl', 'C(/F)=C/Cl', 'F/C(Cl)=C/F', 'C/C=C/C=C/C', 'C/C=C/C-C/C=C/C',
+                                       'C/C=C=C/C', 'F/C=C/C(/F)=C/F', 'C\\C(/F)=C/C']))
+    return out
+
+
+def corr_full(ck):
+    rng = random.Random(f'{ck.seed}:c08-full')
+    fixed = ['F/C=C/F', 'F/C=C\\F', 'F\\C=C\\F', 'F\\C=C/F', 'FC=CF', 'C/C=,#C/C', 'C/C=,#C\\C', 'C/C!-C/C', 'C/C!-C\\C', 'C/C=;@C/C', 'C/C=;!@C\\C',
+             'C/C=C/C=C/C', 'C/C=C/C-C/C=C/C', 'F/C=C/1.F1', 'C1/C=C\\CCCCC1', '[C@](F)(Cl)(Br)I', '[C@@;D3](F)Cl', '[A@]F', '[C,N@]F', '[M@]', 'C/C', 'C/C=C',
+             '[C:1][C:1]', '[C:1][N:2]', 'C11', 'C1C1', 'C=1C=1', 'C%12CC%12', 'c1ccccc1', 'C(C)(C)C', 'C.C', '[C;M]C', 'C-,=C', 'C~C', 'C!-;@C', '[C+-]', 'C!', '(C)C']
+    texts = fixed + stereo_smarts(rng, 250 if ck.tier == 'quick' else 3000) + gen_smarts(rng, 150 if ck.tier == 'quick' else 2000)
+    texts = [t for t in dict.fromkeys(texts) if t and all(32 < ord(c) < 127 and c != '"' for c in t)]
+    bt = Batches('c08_full')
+    bt_imports = None
+    for i in range(0, len(texts), 20):
+        part = texts[i:i + 20]
+        rows = [real_full(t) for t in part]
+        for t, r in zip(part, rows):
+            ck.case(('full', t), nontrivial=not r.startswith('!'))
+            ck.count('full:' + (r[:2] if r.startswith('!') else 'ok'))
+            if '/T' in r.split(' ; ')[-1] or '/F' in r.split(' ; ')[-1]:
+                ck.count('full:with-cis-trans-flag')
+            if r.startswith('!') and r not in ('!A', '!S', '!V'):
+                report_crash(ck, t)
+        bt.add(f'b_full {lst(part, cstr)} {cstr(chr(10).join(rows))}', (part, rows))
+    size = sum(len(c) for c in bt.cases) / max(len(bt.cases), 1)
+    ok, failing, log = coqcases.run_cases(bt.name, IMPORTS + ' SmartsFull', bt.cases, shard=max(10, int(120000 / max(size, 1))), timeout=900)
+    bad = [bt.meta[i] for i in failing]
+    good = conclude(ck, 'smarts() == smarts_full (atoms with stereo marks; bonds with orders, ring mark and cis/trans flag; exception class) on direction-mark patterns '
+                        'and generated SMARTS', bt, ok, bad, log)
+    if not good:
+        for part, _ in bad[:10]:
+            for t in part:
+                check_text(ck, t, 'directed-full')
+        search_stereo(ck, extra=[t for part, _ in bad[:10] for t in part])
+    return good
+
+
+def search_stereo(ck, extra=()):
+    """cis/trans marks: a marked SMARTS double bond matches exactly the molecule bonds of that configuration.
+    Reference: RDKit HasSubstructMatch(useChirality=True) of the plain '=' pattern, combined with ring membership for ;@ / ;!@"""
+    from chython import smiles, smarts
+    from rdkit import Chem, RDLogger
+    RDLogger.DisableLog('rdApp.*')
+    ends = ['F', 'Cl', 'C', 'N']
+    mols = []
+    for x in ends:
+        for y in ends:
+            mols += [f'{x}/C=C/{y}', f'{x}/C=C\\{y}', f'{x}C=C{y}']
+    mols += ['C1/C=C\\CCCCC1', 'C1/C=C/CCCCCCCC1', 'C/C(F)=C/C', 'C/C(F)=C\\C', 'C/C=C/C#N', 'F/C=C/C=C/F', 'F/C=C\\C=C/F', 'C1=CCCCCCC1', 'CC#CC', 'F/C=N/C', 'OC/C=C/CO']
+    queries = []
+    for x in ('F', 'C', 'Cl'):
+        for y in ('F', 'C', 'N'):
+            for m1, m2 in (('/', '/'), ('/', '\\'), ('\\', '\\'), ('\\', '/'), ('', '')):
+                for mid, ring in (('=', None), ('=,#', None), ('!-', None), ('=;@', True), ('=;!@', False)):
+                    queries.append((x, m1, mid, m2, y, ring))
+    rng = random.Random(f'{ck.seed}:c08-stereo')
+    if ck.tier == 'quick':
+        queries = rng.sample(queries, 90)
+    cm = {}
+    for s in mols:
+        try:
+            cm[s] = (smiles(s), Chem.MolFromSmiles(s))
+        except Exception:
+            pass
+    for x, m1, mid, m2, y, ring in queries:
+        text = f'{x}{m1}C{mid}C{m2}{y}'
+        plain = Chem.MolFromSmarts(f'{x}{m1}C=C{m2}{y}')
+        try:
+            q = smarts(text)
+        except Exception as e:
+            ck.counterexample('smarts-documented-rejected', 'a SMARTS of the documented subset is rejected', {'smarts': text}, f'{type(e).__name__}: {e}', 'a query',
+                              'documentation of smarts()')
+            continue
+        for s, (m, rd) in cm.items():
+            if m is None or rd is None or (mid in ('=,#', '!-') and '#' in s):
+                continue        # the reference pattern is the plain double bond
+            want = False
+            for match in rd.GetSubstructMatches(plain, useChirality=True, uniquify=False):
+                bd = rd.GetBondBetweenAtoms(match[1], match[2])
+                if ring is None or bd.IsInRing() == ring:
+                    want = True
+            got = q.is_substructure(m)
+            ck.case(('stereo', text, s), nontrivial=want)
+            ck.count('stereo:pairs')
+            if got != want:
+                ck.counterexample(f'stereo-mark:{"marked" if m1 else "unmarked"}', 'a SMARTS with cis/trans marks matches / does not match against the independently determined configuration',
+                                  {'smarts': text, 'smiles': s}, got, want, "RDKit HasSubstructMatch(useChirality=True) of the '=' pattern + ring membership",
+                                  replay_py=f"from chython import smiles, smarts\nq=smarts({text!r}); print(q.is_substructure(smiles({s!r})), [(n, m, b, b.stereo) for n, m, b in q.bonds()])")
